@@ -246,8 +246,20 @@ class TNCtor(TNCore):
         if len(qD) != self.L + 1 or qD[0] != [0] or qD[-1] != [0]:
             return 'skipped'
 
+        if op.get('product'):
+            # a product operator h_1 x h_2 x ... with Hermitian factors: every MPO bond has dimension one
+            qD = [[0] for _ in qD]
+            self.probe('product_hermitian_mpo')
+
         def fn():
             A = ptn.MPO(qd_arg, qD, fill='random', rng=np.random.Generator(np.random.PCG64(op['sub'])))
+            if op.get('product'):
+                for i in range(len(A.A)):
+                    X = A.A[i][:, :, 0, 0]
+                    A.A[i] = (0.5 * (X + X.conj().T) + (0.5 if i % 2 else -0.25) * np.identity(X.shape[0])).reshape(A.A[i].shape)
+                    if op.get('entries') == 'real':
+                        A.A[i] = A.A[i].real.copy()
+                return A
             if op.get('entries') == 'real':
                 for i in range(len(A.A)):
                     A.A[i] = A.A[i].real.copy()
